@@ -32,6 +32,9 @@ TRUSTED = [
     "statement of 'the language's precedence and associativity' for tie (b)",
     "ParseRun.parse_source (parser model) turns the generated source text into the tree given to ExprSem / CompileExpr",
     "modelled, not verified: f64 arithmetic through Num.v (Flocq-style spec floats), Rust `as` casts, UTF-8 boundaries",
+    "tools/props/C05_scale.py: the lexical-scoping evaluator `zone_eval` (stack of dictionaries) and the closed forms of the "
+    "ladder programs as size-independent oracles of the scale families (the zone programs also go through FnSem / FnVM / "
+    "FnCompile and FullCompile at every size, which ties `zone_eval` to the reference evaluator on every generated program)",
 ]
 ASSUMPTIONS = [
     "`==` on ranges is object identity through the VM's 8-entry range cache (definitional); generated programs create "
